@@ -31,8 +31,10 @@ Oracle (independent of the model, on what the implementation did):
   * interrupted with real worker processes (real seed_task / TileWorkerPool / TileSeedWorker): every list handed over
     before the interrupt is worked off before seed_task returns (oracle only);
   * configured tasks (several grids per cache) only hand over tiles touching the point-wise transformed coverage;
-  * TileWorkerPool.process puts the list into the queue exactly once however long the queue is full (also compared
-    with Seed.pool_process);
+  * polygon coverages with interior rings, also given in another SRS (corpus hole-other-srs-*.json, every second polygon
+    of the realistic stream): no processed meta tile lies inside a ring brought into the grid SRS point by point (pyproj);
+  * TileWorkerPool.process puts the list into the queue exactly once however long the queue is full (fixed schedules
+    first, then generated ones; also compared with Seed.pool_process);
   * the walker does not raise (finding C11-sliver, repaired: rectangles thinner than 2/10 pixel are generated on purpose);
     the progress file holds exactly the reported identifier.
 """
